@@ -237,6 +237,20 @@ fn build_doc(d: &TextDoc) -> Buffer {
     let mut b = new_buffer(d.w, h, d.opt.ice_mode());
     if d.ext == "ans" {
         b.palette = palette_for_ansi();
+        // palette variants (the document description starts with [palN]): colours are what counts, not palette positions
+        match d.what.strip_prefix("[pal").and_then(|r| r.chars().next()) {
+            Some('1') => b.palette.set_color(0, icy_engine::Color::new(0, 0, 170)),
+            Some('2') => {
+                // DOS colours at other positions: 1 <-> 4 and 9 <-> 12 swapped
+                for (i, j) in [(1u32, 4u32), (9, 12)] {
+                    let (a, c) = (b.palette.get_rgb(i), b.palette.get_rgb(j));
+                    b.palette.set_color(i, icy_engine::Color::new(c.0, c.1, c.2));
+                    b.palette.set_color(j, icy_engine::Color::new(a.0, a.1, a.2));
+                }
+            }
+            Some('3') => b.palette.set_color(0, icy_engine::Color::new(10, 20, 30)),
+            _ => {}
+        }
     }
     if d.ext == "ata" {
         b.buffer_type = BufferType::Atascii;
@@ -306,7 +320,8 @@ fn run_doc(d: &TextDoc, prop: &str, ctx: &mut Ctx) {
     };
     let c04 = prop == "C04";
     let cmp = Cmp {
-        compare_blink: c04,
+        // an ice colour buffer has no blink (bit 7 is the bright background): a blink flag on such a cell is not displayed
+        compare_blink: c04 && d.opt.ice_mode() != IceMode::Ice,
         // which blank character (0, 32, 255) is used is not a visible difference (trailing blanks are cut by the writer)
         blanks_equivalent: true,
         eight_bg_colours: !c04,
@@ -619,6 +634,59 @@ fn build_c04(tier: &str) -> (Vec<Job>, Value) {
             }
         }
     }
+    // (7) palettes in which the colours sit at other positions (index 0 is not black, DOS colours permuted), ice buffers with blink
+    //     flags on cells, rows that start with the three characters of a UTF-8 byte order mark
+    let mut n7 = 0;
+    for pal in 1..=3 {
+        for ice in 0..3u8 {
+            for bits in [DEFAULT_BITS, DEFAULT_BITS | 64] {
+                let o = Opt { bits, ice, ..Opt::default() };
+                let a8 = alphabet8(o.ice_mode());
+                let mut cells = a8.clone();
+                // every DOS colour as foreground (bold pairs) and the first eight as background
+                for c in 0..16u32 {
+                    cells.push(t(Cell::new(b'c' as u32, c, (c + 3) % 8)));
+                }
+                let mut rows = framed_rows(&a8, &[a8[0], a8[1], a8[5]], 80, 1);
+                for a in &cells {
+                    for b in &cells {
+                        rows.push(vec![*a, *b, a8[0], a8[0], a8[0], a8[0], a8[0], a8[0], *b, *a]);
+                    }
+                }
+                n7 += rows.len();
+                chunk_docs("ans", 80, rows, 25, o, false, &format!("[pal{pal}] rows under a palette whose colours sit at other positions"), &mut docs);
+            }
+        }
+    }
+    {
+        let o = Opt { ice: 1, ..Opt::default() };
+        let a = b'A' as u32;
+        let cells = [t(Cell::new(a, 7, 1).blink()), t(Cell::new(32, 7, 1).blink()), t(Cell::new(a, 7, 9).blink()), t(Cell::new(32, 7, 0).blink()), t(Cell::new(a, 7, 0)), t(Cell::new(32, 7, 0))];
+        let mut rows = Vec::new();
+        for x in &cells {
+            for y in &cells {
+                for n in [1usize, 6] {
+                    let mut r = vec![*x];
+                    r.extend(std::iter::repeat(*y).take(n));
+                    r.push(*x);
+                    rows.push(r);
+                }
+            }
+        }
+        n7 += rows.len();
+        chunk_docs("ans", 80, rows, 25, o, false, "cells with a blink flag in an ice colour buffer", &mut docs);
+        let mut rows = Vec::new();
+        for tail in [vec![], vec![t(Cell::new(b'H' as u32, 7, 0))], vec![t(Cell::new(b'H' as u32, 14, 1)), t(Cell::new(b'i' as u32, 7, 0))]] {
+            let mut r = vec![t(Cell::new(0xEF, 7, 0)), t(Cell::new(0xBB, 7, 0)), t(Cell::new(0xBF, 7, 0))];
+            r.extend(tail);
+            rows.push(r);
+        }
+        n7 += rows.len();
+        for prep in 0..3u8 {
+            chunk_docs("ans", 80, rows.clone(), 1, Opt { prep, ..Opt::default() }, false, "rows that start with the characters EF BB BF", &mut docs);
+        }
+    }
+    counts.insert("palette_position_blink_in_ice_and_bom_rows".into(), json!(n7));
     // (6) widths beyond 80 columns carried by SAUCE: prefix . filler . suffix rows (blank runs that end beyond column 80)
     let mut n6 = 0;
     for w in [81usize, 100, 132] {
